@@ -91,12 +91,13 @@ type Inst struct {
 	DemoteDur time.Duration `json:"demote_dur,omitempty"`
 	NoMetrics bool          `json:"no_metrics,omitempty"`
 
-	Lat        []time.Duration `json:"lat"` // request/response latencies, consumed round-robin by this instance's store operations
-	Rules      []OpRule        `json:"rules,omitempty"`
-	WatchDelay []time.Duration `json:"watch_delay,omitempty"` // per delivered event, round-robin; FIFO is preserved
-	WatchDrop  []int           `json:"watch_drop,omitempty"`  // ordinals (per instance, over all its watchers) of events that are lost
-	DropAll    bool            `json:"drop_all,omitempty"`    // every non-initial event is lost
-	WatchFail  int             `json:"watch_fail,omitempty"`  // the first n Watch() calls fail
+	Lat          []time.Duration `json:"lat"` // request/response latencies, consumed round-robin by this instance's store operations
+	Rules        []OpRule        `json:"rules,omitempty"`
+	WatchDelay   []time.Duration `json:"watch_delay,omitempty"`    // per delivered event, round-robin; FIFO is preserved
+	WatchDrop    []int           `json:"watch_drop,omitempty"`     // ordinals (per instance, over all its watchers) of events that are lost
+	DropAll      bool            `json:"drop_all,omitempty"`       // every non-initial event is lost
+	WatchFail    int             `json:"watch_fail,omitempty"`     // the first n Watch() calls fail
+	WatchFailErr string          `json:"watch_fail_err,omitempty"` // "" time-out | auth | invalid | bucket: what the failing Watch() calls return
 }
 
 type OpRule struct {
